@@ -1,6 +1,8 @@
 """C09 — cursor position and mouse hit-testing agree with what is drawn.
 
-A case is ``{"tree": spec, "mode": "B"|"F", "dc": n, "dr": n, "ev": i, "clicks": [[kind, i], ...]}``.
+A case is ``{"tree": spec, "mode": "B"|"F", "dc": n, "dr": n, "ev": i, "ops": [op, ...]}`` with
+``op = ["click", kind, i] | ["text", leaf, what, new_text] | ["key", i]`` (older replay files carry
+``"clicks": [[kind, i], ...]`` instead; they are read as click ops).
 ``spec`` is a JSON description of a nesting of Pile / Columns / GridFlow / Frame / Filler / Padding /
 Overlay / BoxAdapter / LineBox / AttrMap / ListBox.  It is realised **type-directed by sizing mode**
 (``Planner.plan``): the parent and the item option decide whether a child is a flow or a box widget
@@ -23,22 +25,33 @@ rectangle of exactly the size of the canvas the probe returned; otherwise the ca
 Oracle (per case, all cells of the rendered area):
 
 1. ``get_cursor_coords(size)`` of a freshly built, never rendered tree, and of the rendered tree,
-   ``== render(size, focus=True).cursor``; again after every button-1 click of the history.
+   ``== render(size, focus=True).cursor``; again after every step of the history, asked both *before* the
+   tree is rendered again ("reports without rendering": containers keep offsets of their own, e.g. the
+   ListBox's offset_rows / inset, which a step can leave stale) and after.  A step is a button-1 press, a
+   change of what a leaf shows through its public setter (``set_edit_text`` / ``set_caption`` / ``set_text``
+   / ``set_label``: rows and natural width of the leaf may grow or shrink under the containers' feet) or a
+   key sent to a selectable root (cursor keys, paging, characters, enter, backspace/delete).  The fit
+   precondition is re-established on the drawing that follows each step; a step after which the tree no
+   longer fits (or a key that raises: keys are not this property's) ends the history, nothing is reported.
 2. for every cell whose attribute is a probe X: ``root.mouse_event(size, ev, button, c, r, True)`` makes X
    log ``(c - left_X, r - top_X)`` and no other probe log anything.  The all-cells sweep uses an event
-   that changes no state (release / buttons 2, 3); button-1 presses form a short history on the same
-   tree (containers move the focus, Edit moves its cursor, the tree is re-rendered and re-read after each).
+   that changes no state (release / buttons 2, 3); button-1 presses are steps of the history on the same
+   tree (containers move the focus, Edit moves its cursor, the tree is re-rendered and re-read after each),
+   and the all-cells sweep is repeated on the drawing of the state the history ends in.
 3. for every cell inside the rectangle of a selectable probe X such that every widget from the root down
    to X implements ``move_cursor_to_coords`` (Frame, ListBox, Overlay do not: nothing asserted below
    them): on a *fresh* tree ``root.move_cursor_to_coords(size, c, r)`` is truthy exactly when a fresh twin
    leaf accepts ``(c - left_X, r - top_X)`` at the size X was rendered with (a selectable leaf without
    the method, SelectableIcon, accepts every cell: that is how every container reads it); after success
-   ``root.get_cursor_coords(size)`` is the twin's cursor translated by X's top-left corner.  The
-   statement's "on the requested row" is the row part of that equation whenever the leaf itself puts
-   its cursor on the requested row (Edit does; a Button with a wrapped label keeps it on the label's
-   first row, which is not the containers' doing).  The column part is a consequence of clauses 1 + 3
-   (the leaf was handed exactly the translated cell, so it is in the twin's state) and is reported under
-   its own clause name ``move-cursor-col``.
+   ``root.get_cursor_coords(size)`` is the twin's cursor translated by X's top-left corner.  The column
+   part is a consequence of clauses 1 + 3 (the leaf was handed exactly the translated cell, so it is in
+   the twin's state) and is reported under its own clause name ``move-cursor-col``.  The twin is the same
+   implementation as the leaf, so that equation cannot see a leaf that accepts a cell and then puts its
+   cursor elsewhere; the statement's "afterwards the reported cursor is on the requested row" is therefore
+   asserted literally as well (``move-cursor-requested-row``: the row of the root's reported cursor == the
+   row asked for, no twin involved) for the leaves that move their cursor to the accepted cell (Edit; a
+   Button / CheckBox / SelectableIcon keeps the cursor where its icon's cursor_position says, e.g. on the
+   first row of a wrapped label, whatever row was asked for - weaker reading, nothing asserted there).
 
 Nothing is asserted for cells in margins, dividers, borders, the Overlay's bottom widget (Overlay
 documents "ignore if outside of top_w") and unselectable children (clause 3): there Columns/Padding
@@ -83,9 +96,14 @@ RULE = (
     "explicit or default focus positions.  The size is the tree's computed need plus 0..6 columns and 0..4 rows; a "
     "render in which some probe is missing, clipped or not a full rectangle is discarded (fit precondition).  Per "
     "case ALL cells of the rendered area are visited: one state-free mouse event per cell, one move_cursor_to_coords "
-    "on a fresh tree per cell of a selectable leaf, plus a history of <=4 button-1 presses, the cursor agreement "
-    "being re-checked after each.  Non-trivial: >=2 nested container/decoration levels and a non-zero offset "
-    "(second child, divider, margin/alignment, header, border, overlay)."
+    "on a fresh tree per cell of a selectable leaf (accept == twin leaf, cursor == twin cursor translated, and for "
+    "Edit leaves literally: reported cursor row == requested row), plus a history of <=6 steps on the live tree "
+    "(button-1 press on a cell / new text, caption or label for a leaf through its setter, text from the same "
+    "alphabet so rows grow and shrink / one of 14 keys to a selectable root); after each step the cursor agreement "
+    "is checked before and after the tree is drawn again (fit re-verified; a step that un-fits the tree ends the "
+    "history) and the state-free mouse sweep is repeated on the final state.  Non-trivial: >=2 nested "
+    "container/decoration levels and a non-zero offset (second child, divider, margin/alignment, header, border, "
+    "overlay)."
 )
 ASSUMPTIONS = [
     "probe leaves are ordinary subclasses of the urwid leaf widgets: render() = CompositeCanvas(super().render()) "
@@ -96,6 +114,8 @@ ASSUMPTIONS = [
     "leaf rows()/pack() do not depend on focus or cursor position (Edit, SelectableIcon, Text, Button, CheckBox)",
     "a case during which urwid emits one of its sizing warnings is mis-built and discarded",
     "utf-8 encoding, default command_map",
+    "history steps use only public setters (Edit.set_edit_text/set_caption, Text.set_text, Button/CheckBox.set_label), "
+    "mouse_event and keypress on the root; an exception escaping keypress is not this property's (history ends)",
 ]
 
 MODE = "utf8"
@@ -856,16 +876,16 @@ class Harness:
             sizes[pid] = size
         return canv, grid, rects, sizes
 
-    def draw(self, root, reg):
+    def draw(self, root, reg, count=True):
         try:
-            return self.draw_raw(root, reg)
+            return self.draw_raw(root, reg, count)
         except RenderFailed as rf:
             # no drawing, so the fit precondition cannot be established on this tree.  Rendering failures
             # are C01's business; the exception is pursued here only if it is an instance of a listed
             # cursor/geometry defect (it disappears, and the tree fits, under that defect's patch).
             v = rf.violation
             if self.collect is not None or self.attribute(v) is None:
-                if self.collect is None:
+                if self.collect is None and count:
                     stat(f"discard:render-raises:{v.clause}")
                 raise Discard() from rf
             self.report(v)
@@ -1096,16 +1116,20 @@ class Harness:
             try:
                 what = self.apply(op, root, reg, grid, rects, ncols, nrows)
             except Discard:
+                if self.collect is not None:
+                    raise  # attribution re-run: a history that cannot be followed to its end attributes nothing
+                applied = 0  # the step may have been carried out in part: no drawing of the final state
                 break
             if what is None:
                 continue
             before = self.ask(root, f"get_cursor_coords ({what}, not rendered since)")
             try:
-                canv, grid, rects, _sizes = self.draw(root, reg)
+                canv, grid, rects, _sizes = self.draw(root, reg, count=False)
             except Discard:
                 # the changed tree no longer fits its size (or cannot be drawn): outside the property from here on
-                if self.collect is None:
-                    stat("history:ended:unfit")
+                if self.collect is not None:
+                    raise
+                stat("history:ended:unfit")
                 applied = 0  # no drawing of the final state to sweep
                 break
             applied += 1
@@ -1348,7 +1372,7 @@ def case_strategy(depth):
     click = st.tuples(st.just("click"), st.integers(0, 1), st.integers(0, 2000)).map(list)
     text = st.tuples(st.just("text"), st.integers(0, 11), st.integers(0, 1), _txt).map(list)
     key = st.tuples(st.just("key"), st.integers(0, len(KEYS) - 1)).map(list)
-    ops = st.lists(st.one_of(click, click, text, text, key), max_size=5)
+    ops = st.lists(st.one_of(click, click, text, text, key), max_size=6)
     return st.builds(
         lambda rt, dc, dr, ev, ops: {"tree": rt[1], "mode": rt[0], "dc": dc, "dr": dr, "ev": ev, "ops": ops},
         root,
@@ -1409,6 +1433,9 @@ def nontrivial(case):
 def classify(case):
     out = [f"root:{case['mode']}:{case['tree'].get('k')}", f"levels:{_levels(case['tree'])}"]
     out += [f"has:{k}" for k in sorted(_kinds(case["tree"], set()))]
+    ops = [op[0] for op in case.get("ops") or []] + ["click"] * len(case.get("clicks") or [])
+    out.append(f"steps:{len(ops)}")
+    out += [f"step:{k}" for k in sorted(set(ops))]
     return out
 
 
